@@ -124,7 +124,8 @@ Definition iface_rec (x : hv) : bool :=
 
 Inductive copy_step (f : nat) (st : cst) : hv -> cst -> hv -> Prop :=
 | cs_id : forall v, refs v = [] -> inline_slices v = [] ->
-    (forall pm mm H, vrel pm mm H v v) -> copy_step f st v st v
+    (forall pm mm H, vrel pm mm H v v) -> (forall g, map_addr g v = v) ->
+    (forall st1, copy true (S f) st1 v = Done (st1, v)) -> copy_step f st v st v
 | cs_struct : forall l st' l', map_st (copy true f) st l = Done (st', l') -> copy_step f st (HStruct l) st' (HStruct l')
 | cs_array : forall l st' l', map_st (copy true f) st l = Done (st', l') -> copy_step f st (HArray l) st' (HArray l')
 | cs_ptr_hit : forall a a', alookup (c_pm st) a = Some a' -> copy_step f st (HPtr (Some a)) st (HPtr (Some a'))
